@@ -2,7 +2,7 @@
    origins.go).  cty's convertibility is an input (a table computed by the real library for the
    types occurring in the case): theorems are proved for an arbitrary [conv]. *)
 From Coq Require Import String List ZArith Bool.
-From HV Require Import Base.Sexp Base.Str Base.Pos Model.Addr Model.DepKeys Model.Schema.
+From HV Require Import Base.Sexp Base.Str Base.Pos Base.SortSpec Model.Addr Model.DepKeys Model.Schema.
 Import ListNotations.
 Open Scope string_scope.
 
@@ -240,6 +240,72 @@ Section Walk.
     end.
 End Walk.
 
+(* ---- the two decoder-level lookups over a world of paths (decoder/reference_targets.go,
+        decoder/reference_origins.go) ---- *)
+Record path_ctx := { pc_path : path; pc_ok : bool; pc_targets : list target; pc_origins : list origin }.
+
+Fixpoint find_path (w : list path_ctx) (p : path) : option path_ctx :=
+  match w with
+  | [] => None
+  | c :: r => if path_eqb (pc_path c) p then (if pc_ok c then Some c else None) else find_path r p
+  end.
+
+Record ref_target := { rt_origin : range; rt_path : path; rt_range : range; rt_def : option range }.
+
+Section Lookups.
+  Variable conv : ty -> ty -> bool.
+  Variable w : list path_ctx.
+
+  Definition resolve_origin (own : path_ctx) (o : origin) : list ref_target :=
+    match o with
+    | ODirect r tp tr => [{| rt_origin := r; rt_path := tp; rt_range := tr; rt_def := None |}]
+    | OPath r a tp cs =>
+        match find_path w tp with
+        | None => []
+        | Some c =>
+            flat_map (fun t => match t_rng t with
+                               | Some tr => [{| rt_origin := r; rt_path := tp; rt_range := tr; rt_def := t_def t |}]
+                               | None => [] end)
+                     (targets_match conv (pc_targets c) a cs r)
+        end
+    | OLocal a r cs =>
+        flat_map (fun t => match t_rng t with
+                           | Some tr => [{| rt_origin := r; rt_path := pc_path own; rt_range := tr; rt_def := t_def t |}]
+                           | None => [] end)
+                 (targets_match conv (pc_targets own) a cs r)
+    end.
+
+  (* Decoder.ReferenceTargetsForOriginAtPos: None = an error is returned *)
+  Definition targets_for_origin_at_pos (p : path) (file : string) (x : pos) : option (list ref_target) :=
+    match find_path w p with
+    | None => None
+    | Some own =>
+        match origins_at_pos (pc_origins own) file x with
+        | [] => None                                  (* NoOriginFound *)
+        | os => Some (flat_map (resolve_origin own) os)
+        end
+    end.
+
+  Definition ro_ltb (a b : path * range) : bool :=
+    let '(pa, ra) := a in let '(pb, rb) := b in
+    if negb (String.eqb (pa_path pa) (pa_path pb)) then String.ltb (pa_path pa) (pa_path pb)
+    else if negb (String.eqb (r_file ra) (r_file rb)) then String.ltb (r_file ra) (r_file rb)
+    else Z.ltb (p_byte (r_start ra)) (p_byte (r_start rb)).
+
+  (* Decoder.ReferenceOriginsTargetingPos *)
+  Definition origins_targeting_pos (p : path) (file : string) (x : pos) : list (path * range) :=
+    match find_path w p with
+    | None => []
+    | Some own =>
+        let ts := innermost_at_pos (S (forest_depth (pc_targets own))) (pc_targets own) file x in
+        let raw := flat_map (fun t =>
+                     flat_map (fun c => if pc_ok c
+                                        then map (fun o => (pc_path c, o_range o)) (origins_match conv (pc_origins c) (pc_path c) p t)
+                                        else []) w) ts in
+        Base.SortSpec.stable_sort ro_ltb raw
+    end.
+End Lookups.
+
 (* ---------------- reader / printer / runner entries ---------------- *)
 Definition orange_of_sexp (x : sexp) : option (option range) :=
   match x with SList [] => Some None | _ => option_map Some (range_of_sexp x) end.
@@ -332,6 +398,16 @@ Definition origin_parts (o : origin) : option (address * list ocons * range) :=
   | ODirect _ _ _ => None
   end.
 
+Definition pctx_of_sexp (x : sexp) : option path_ctx :=
+  match x with
+  | SList [p; ok; SList ts; SList os] =>
+      match path_of_sexp p, as_bool ok, map_opt target_of_sexp ts, map_opt origin_of_sexp os with
+      | Some p, Some ok, Some ts, Some os => Some {| pc_path := p; pc_ok := ok; pc_targets := ts; pc_origins := os |}
+      | _, _, _, _ => None
+      end
+  | _ => None
+  end.
+
 Definition run_ref (kind : string) (args : list sexp) : option sexp :=
   if String.eqb kind "tmatch" then
     match args with
@@ -390,6 +466,31 @@ Definition run_ref (kind : string) (args : list sexp) : option sexp :=
   else if String.eqb kind "less" then
     match args with
     | [a; b] => match target_of_sexp a, target_of_sexp b with Some a, Some b => Some (sB (targets_less a b)) | _, _ => None end
+    | _ => None
+    end
+  else if String.eqb kind "gotodef" then
+    match args with
+    | [SList cv; SList w; p; SStr file; x] =>
+        match map_opt conv_entry_of_sexp cv, map_opt pctx_of_sexp w, path_of_sexp p, pos_of_sexp x with
+        | Some cv, Some w, Some p, Some x =>
+            match targets_for_origin_at_pos (conv_lookup cv) w p file x with
+            | None => Some (SList [SAtom "error"])
+            | Some rts => Some (SList (map (fun rt => SList [sexp_of_range (rt_origin rt); SStr (pa_path (rt_path rt));
+                                                             sexp_of_range (rt_range rt); sopt sexp_of_range (rt_def rt)]) rts))
+            end
+        | _, _, _, _ => None
+        end
+    | _ => None
+    end
+  else if String.eqb kind "findrefs" then
+    match args with
+    | [SList cv; SList w; p; SStr file; x] =>
+        match map_opt conv_entry_of_sexp cv, map_opt pctx_of_sexp w, path_of_sexp p, pos_of_sexp x with
+        | Some cv, Some w, Some p, Some x =>
+            Some (SList (map (fun pr => SList [SStr (pa_path (fst pr)); sexp_of_range (snd pr)])
+                             (origins_targeting_pos (conv_lookup cv) w p file x)))
+        | _, _, _, _ => None
+        end
     | _ => None
     end
   else if String.eqb kind "matchwalk" then
